@@ -247,15 +247,124 @@ fn split_runs(seed: u64, idx: u64) -> Out {
     out
 }
 
+/// A feedback block with ONE loop and no internal skips is its body applied once; its update is
+/// one optimizer step per body layer (mean coupling over a single copy is the identity). The
+/// same layers placed directly in the network are trained by Network::update, which the twin
+/// trainer of `runs` covers. Both networks, given the same parameters, data and (stateful)
+/// optimizer, must therefore arrive at the same weights - whatever the block does with
+/// optimizer slots, step numbers or accumulators.
+fn block_inline(seed: u64, idx: u64) -> Out {
+    let mut rng = Rng::stream(seed, "block_inline", idx);
+    let acts = [Act::Tanh, Act::Sigmoid, Act::Linear, Act::Leaky];
+    let kind = (idx % 2) as usize;
+    let depth = rng.range(2, 4);
+    let inline = chain(&mut rng, kind, depth, &acts, false, true);
+    let mut out = Out::new(String::new());
+    let shapes = match inline.shapes() {
+        Ok(s) => s,
+        Err(_) => {
+            out.nontrivial = false;
+            return out;
+        }
+    };
+    // wrap one shape-preserving layer (not the output layer, not right after a flat/spatial switch)
+    let cands: Vec<usize> = (0..inline.layers.len() - 1).filter(|i| shapes[*i].0 == shapes[*i].1 && !shapes[*i].2 && !(*i > 0 && shapes[*i - 1].1.is_flat() != shapes[*i].0.is_flat())).collect();
+    if cands.is_empty() {
+        out.nontrivial = false;
+        return out;
+    }
+    let at = *rng.pick(&cands);
+    let mut blocked = inline.clone();
+    blocked.layers[at] = LCfg::Feedback { body: vec![inline.layers[at].clone()], loops: 1, inskips: false, outskips: false, acc: Acc::Mean };
+    let opt = gen_optimizer(&mut rng, ((idx / 2) % 5) as usize);
+    let outputs = match inline.layers.last().unwrap() {
+        LCfg::Dense { n, .. } => *n,
+        _ => 1,
+    };
+    let n = rng.range(2, 7);
+    let batch = rng.range(1, n);
+    let epochs = rng.range(1, 3);
+    let params = gen_params(&inline, &mut rng, -0.8, 0.8).unwrap();
+    let mut params_b = params.clone();
+    params_b[at] = P::Block(vec![params[at].clone()]);
+    let train = random_data(&mut rng, inline.input, n, outputs, Obj::MSE, false);
+    let desc = format!("{} | layer {} as a one-loop block | {} | N{} B{} E{}", inline.describe(), at, opt.describe(), n, batch, epochs);
+    out.key = desc.clone();
+    let mk = |cfg: &NetCfg, p: &[P]| -> Result<Network, String> {
+        let mut net = build(cfg, Some(p))?;
+        net.set_objective(lib_obj(Obj::MSE), None);
+        net.set_optimizer(opt.build());
+        Ok(net)
+    };
+    let (mut a, mut b) = match (mk(&inline, &params), mk(&blocked, &params_b)) {
+        (Ok(a), Ok(b)) => (a, b),
+        _ => {
+            out.nontrivial = false;
+            out.count("block_inline_pairs_rejected_by_the_library", 1);
+            return out;
+        }
+    };
+    let (xr, tr) = (train.x_refs(), train.t_refs());
+    let (ra, _) = in_cached_pool(2, || guard(|| a.learn(&xr, &tr, None, batch, epochs as i32, None)));
+    let (rb, _) = in_cached_pool(2, || guard(|| b.learn(&xr, &tr, None, batch, epochs as i32, None)));
+    let detail = || J::obj().set("case", J::s(&desc)).set("parameters", params_json(&params));
+    match (ra, rb) {
+        (Err(_), Err(_)) => {
+            out.nontrivial = false;
+        }
+        (Ok(_), Err(m)) | (Err(m), Ok(_)) => {
+            if m.contains("Loss is NaN") {
+                out.nontrivial = false;
+            } else {
+                out.viol("train:block-inline:one-variant-panics", format!("the same layers inline and as a one-loop block: only one training run panics: {} [{}]", short(&m, 160), desc), detail());
+            }
+        }
+        (Ok((tla, _, _)), Ok((tlb, _, _))) => {
+            let w0: Vec<f32> = params.iter().flat_map(|p| p.flat()).collect();
+            let fa: Vec<f32> = get_params(&a).iter().flat_map(|(_, v)| v.clone()).collect();
+            let fb: Vec<f32> = get_params(&b).iter().flat_map(|(_, v)| v.clone()).collect();
+            if fa.len() != fb.len() || fa.len() != w0.len() || fa.iter().chain(fb.iter()).any(|v| !v.is_finite() || v.abs() > 1e6) {
+                out.nontrivial = false;
+                out.count("block_inline_pairs_not_judged_(diverged_or_layout)", 1);
+                return out;
+            }
+            out.count("block_inline_pairs_compared", 1);
+            out.cover("block_inline_optimizers", opt.name().to_string());
+            if fa.iter().zip(fb.iter()).all(|(x, y)| x.to_bits() == y.to_bits()) {
+                out.count("block_inline_pairs_bit_identical", 1);
+            }
+            let scale = fa.iter().zip(w0.iter()).map(|(x, w)| (x - w).abs()).fold(0.0f32, f32::max) as f64;
+            for k in 0..fa.len() {
+                let tol = 1e-3 * ((fa[k].abs() as f64) + scale) + 1e-6;
+                if (fa[k] as f64 - fb[k] as f64).abs() > tol {
+                    out.viol(
+                        &format!("train:block-inline:weights:{}", opt.name()),
+                        format!("parameter {} after training: {:e} with the layers inline, {:e} with layer {} wrapped into a one-loop block (tolerance {:e}) [{}]", k, fa[k], fb[k], at, tol, desc),
+                        detail(),
+                    );
+                    break;
+                }
+            }
+            for e in 0..tla.len().min(tlb.len()) {
+                if (tla[e] as f64 - tlb[e] as f64).abs() > 1e-3 * (tla[e].abs() as f64) + 1e-6 {
+                    out.viol("train:block-inline:epoch-loss", format!("epoch {}: training loss {:e} inline, {:e} with the one-loop block [{}]", e + 1, tla[e], tlb[e], desc), detail());
+                    break;
+                }
+            }
+        }
+    }
+    out
+}
+
 impl Monitor for C04 {
     fn id(&self) -> &'static str {
         "C04"
     }
     fn gens(&self, tier: Tier) -> Vec<(&'static str, u64)> {
-        vec![("runs", tier.pick(21_000, 420_000)), ("exact_fit", tier.pick(6_000, 120_000)), ("big_batches", tier.pick(600, 12_000)), ("split_runs", tier.pick(9_000, 180_000))]
+        vec![("runs", tier.pick(21_000, 420_000)), ("exact_fit", tier.pick(6_000, 120_000)), ("big_batches", tier.pick(600, 12_000)), ("split_runs", tier.pick(9_000, 180_000)), ("block_inline", tier.pick(9_000, 180_000))]
     }
     fn rule(&self) -> &'static str {
-        "case i -> objective (i mod 7), optimizer kind (i/7 mod 5: SGD, SGDM, Adam, AdamW, RMSprop with random decay / dampening / momentum / centred), N in 1..23, B from {1,2,3,5,7,N-1,N,N+1,64} (so B=1, B not dividing N and B>N occur in every block of nine cases), E in 1..5, validation data in every second case, the objective gradient clamped in every fifth case, 6..12 epochs in every ninth, pools of 1..8 threads; random network of dense/conv/deconv/max-pool layers ending in a dense layer, pairwise different samples. (a) the hooked Forward/Update event log of the learn() call (and, in every third case, of a second learn() call on the same network, with another batch size and only a prefix of the samples) must match the trace grammar: per epoch the consecutive groups of B samples, each sample's forward pass exactly once and all before the group's single Update, Update step number = epoch index, then every validation sample once; nothing else. (b) a twin trainer recomputes the run: per-sample gradients from the library's own forward + hooked backward at the twin's weights, summed in sample order, one step of the documented update rule per group; final weights must agree within 1e-4 x (|w| + distance travelled) + 1e-6 and the per-epoch loss must equal the mean over groups of the mean per-sample loss. big_batches: the same two checks with N in {65,66,70,100,127..130,150,200,257} and B in {N, N-1, 64, 65, 70, 100, 128, 129, random 65..N} (groups larger than the library's parallel chunk of 64, mostly not a multiple of it), small networks. exact_fit: the same two checks on dense networks whose first layer is a ReLU layer with positive weights and negative bias followed by bias-free layers, with runs of samples that are fitted exactly (negative inputs, zero targets: loss 0, gradient 0) between ordinary samples, objectives AE / MAE / MSE: a group whose samples are all fitted exactly still receives its optimizer step (momentum, moment estimates and weight decay keep acting). split_runs: architectures the twin does not model (feedback blocks with and without bias, a skip or a loop connection), plain SGD with and without decay: one learn() call over G groups and E epochs must leave bit-identical weights to E*G learn() calls of one group each on an identically built network, and report the mean of those calls' losses per epoch (nothing is carried from one group to the next). Distinct = distinct (network, optimizer, N, B, E) descriptors."
+        "case i -> objective (i mod 7), optimizer kind (i/7 mod 5: SGD, SGDM, Adam, AdamW, RMSprop with random decay / dampening / momentum / centred), N in 1..23, B from {1,2,3,5,7,N-1,N,N+1,64} (so B=1, B not dividing N and B>N occur in every block of nine cases), E in 1..5, validation data in every second case, the objective gradient clamped in every fifth case, 6..12 epochs in every ninth, pools of 1..8 threads; random network of dense/conv/deconv/max-pool layers ending in a dense layer, pairwise different samples. (a) the hooked Forward/Update event log of the learn() call (and, in every third case, of a second learn() call on the same network, with another batch size and only a prefix of the samples) must match the trace grammar: per epoch the consecutive groups of B samples, each sample's forward pass exactly once and all before the group's single Update, Update step number = epoch index, then every validation sample once; nothing else. (b) a twin trainer recomputes the run: per-sample gradients from the library's own forward + hooked backward at the twin's weights, summed in sample order, one step of the documented update rule per group; final weights must agree within 1e-4 x (|w| + distance travelled) + 1e-6 and the per-epoch loss must equal the mean over groups of the mean per-sample loss. big_batches: the same two checks with N in {65,66,70,100,127..130,150,200,257} and B in {N, N-1, 64, 65, 70, 100, 128, 129, random 65..N} (groups larger than the library's parallel chunk of 64, mostly not a multiple of it), small networks. exact_fit: the same two checks on dense networks whose first layer is a ReLU layer with positive weights and negative bias followed by bias-free layers, with runs of samples that are fitted exactly (negative inputs, zero targets: loss 0, gradient 0) between ordinary samples, objectives AE / MAE / MSE: a group whose samples are all fitted exactly still receives its optimizer step (momentum, moment estimates and weight decay keep acting). split_runs: architectures the twin does not model (feedback blocks with and without bias, a skip or a loop connection), plain SGD with and without decay: one learn() call over G groups and E epochs must leave bit-identical weights to E*G learn() calls of one group each on an identically built network, and report the mean of those calls' losses per epoch (nothing is carried from one group to the next). block_inline: a chain network and the same network with one shape-preserving layer wrapped into a feedback block of ONE loop (no internal skips) are trained with the same data and the same optimizer (all five kinds, stateful ones included): final weights and epoch losses must agree (1e-3 relative to the weight change; bit-identical pairs are counted). Distinct = distinct (network, optimizer, N, B, E) descriptors."
     }
     fn assumptions(&self) -> Vec<&'static str> {
         vec![
@@ -267,6 +376,9 @@ impl Monitor for C04 {
     fn run(&self, gen: &str, seed: u64, idx: u64, _tier: Tier) -> Out {
         if gen == "split_runs" {
             return split_runs(seed, idx);
+        }
+        if gen == "block_inline" {
+            return block_inline(seed, idx);
         }
         let mut rng = Rng::stream(seed, gen, idx);
         let exact = gen == "exact_fit";
@@ -672,6 +784,7 @@ impl Monitor for C04 {
         agg.require(agg.set_size("n_b_relation") == 4, "N/B relations not all exercised".into());
         agg.require(agg.set_size("optimizer_x_objective") == 35, format!("{} of 35 optimizer x objective combinations", agg.set_size("optimizer_x_objective")));
         agg.require(agg.count("exactly_fitted_groups_after_the_optimizer_state_may_be_non_zero") >= 500, "too few exactly fitted groups".into());
+        agg.require(agg.count("block_inline_pairs_compared") >= 2000, "too few block/inline pairs".into());
         agg.require(agg.count("split_run_pairs_compared") >= 2000, "too few split-run pairs".into());
         agg.require(agg.count("runs_with_groups_larger_than_64_samples") >= 300, "too few runs with large groups".into());
         agg.require(agg.count("learn_runs") >= 1500, format!("{} learn runs judged", agg.count("learn_runs")));
